@@ -28,7 +28,8 @@ Definition pay_formula (E : env) (t : txin) (rc : list addr) (q : denom -> Z) (a
       equal split, only registered withdrawers (and nobody else) gain, the collector's delta is
       fee − n·q (conservation), nothing is paid when [rc] is empty;
     - n·q d ≤ DeveloperShares × (fee in allowed denom d) + n   (one base unit per recipient and denom);
-    - nothing is paid in a denom that is not allowed or not part of the fee. *)
+    - nothing is paid in a denom that is not allowed or not part of the fee;
+    - n·q d ≤ (the tx's own fee in d) + n: bounded by the paying tx's fee whatever the share is. *)
 Definition P_pay (E : env) (p : params) (rl : addr -> option share_entry) (t : txin)
            (D : addr -> denom -> Z) : Prop :=
   let rc := eff_recipients p rl (t_msgs t) in
@@ -38,7 +39,8 @@ Definition P_pay (E : env) (p : params) (rl : addr -> option share_entry) (t : t
     (forall a d, D a d = pay_formula E t rc q a d) /\
     (forall d, PREC * (Z.of_nat (length rc) * q d)
                <= p_share p * allowed_amount p (t_fee t) d + Z.of_nat (length rc) * PREC) /\
-    (forall d, allowed_amount p (t_fee t) d = 0 -> q d = 0).
+    (forall d, allowed_amount p (t_fee t) d = 0 -> q d = 0) /\
+    (forall d, Z.of_nat (length rc) * q d <= amount_of (t_fee t) d + Z.of_nat (length rc)).
 
 (** who may change the registry entry of contract [c] from [before] to [after] *)
 Definition self_entry (c : addr) : share_entry := {| fs_deployer := c; fs_withdrawer := c |}.
@@ -95,6 +97,7 @@ Definition Pb_pay (E : env) (p : params) (rl : addr -> option share_entry) (t : 
              Z.leb 0 (q d) &&
              Z.leb (PREC * (Z.of_nat n * q d)) (p_share p * allowed_amount p (t_fee t) d + Z.of_nat n * PREC) &&
              (negb (Z.eqb (allowed_amount p (t_fee t) d) 0) || Z.eqb (q d) 0) &&
+             Z.leb (Z.of_nat n * q d) (amount_of (t_fee t) d + Z.of_nat n) &&
              forallb (fun a => Z.eqb (tlookup dl a d) (pay_formula E t rc q a d)) Ua) Ud.
 
 Definition auth_change_b (E : env) (W : wasm) (s c : addr) (before after : option share_entry) : bool :=
@@ -188,7 +191,7 @@ Proof.
     assert (H2 : forall a, tlookup dl a d = 0) by (intro a; apply tlookup_notin_d; tauto).
     split; [exact H1|]. split; [exact H2|].
     unfold q, q_of. destruct n; [reflexivity|]. rewrite H1, H2. reflexivity. }
-  exists q. repeat split.
+  exists q. split; [|split; [|split; [|split]]].
   - intro d. destruct (in_dec Nat.eq_dec d Ud) as [Hd|Hd].
     + specialize (H d Hd). repeat (apply andb_true_iff in H as [H ?]). apply Z.leb_le. exact H.
     + destruct (Hout d Hd) as (_ & _ & Hq). rewrite Hq. lia.
@@ -213,6 +216,9 @@ Proof.
       * rewrite Ha in *. discriminate.
       * apply Z.eqb_eq. assumption.
     + apply (Hout d Hd).
+  - intro d. destruct (in_dec Nat.eq_dec d Ud) as [Hd|Hd].
+    + specialize (H d Hd). repeat (apply andb_true_iff in H as [H ?]). apply Z.leb_le. assumption.
+    + destruct (Hout d Hd) as (Hf & _ & Hq). rewrite Hq, Hf. lia.
 Qed.
 
 Lemma auth_change_b_sound E W s c b a : auth_change_b E W s c b a = true -> auth_change E W s c b a.
